@@ -72,6 +72,17 @@ type TSmp struct {
 type TConc struct {
 	Extreme bool // map small values to int64/uint64 extremes
 	StrMode int
+	Wire    int // > 0: map small positive values and addresses to the length boundaries of the wire format's varints
+}
+
+// the values at which a varint grows by a byte (2^7k) and their predecessors: injective on the small abstract values
+var wireBoundaries = []uint64{1<<7 - 1, 1 << 7, 1<<14 - 1, 1 << 14, 1<<21 - 1, 1 << 21, 1<<28 - 1, 1 << 28, 1<<28 + 1, 1<<35 - 1, 1 << 35, 1 << 42, 1<<49 - 1, 1 << 49, 1 << 56, 1<<56 - 1, 1<<62 + 1, 1<<63 - 1}
+
+func (c TConc) wire(v uint64) uint64 {
+	if c.Wire <= 0 || v == 0 || v >= uint64(len(wireBoundaries)) {
+		return v
+	}
+	return wireBoundaries[(int(v)+c.Wire)%len(wireBoundaries)]
 }
 
 func (c TConc) id(n int64) uint64 {
@@ -82,6 +93,9 @@ func (c TConc) id(n int64) uint64 {
 }
 
 func (c TConc) val(v int64) int64 {
+	if c.Wire > 0 && v > 0 {
+		return int64(c.wire(uint64(v)))
+	}
 	if !c.Extreme {
 		return v
 	}
@@ -99,6 +113,9 @@ func (c TConc) val(v int64) int64 {
 }
 
 func (c TConc) addr(a int64) uint64 {
+	if c.Wire > 0 && a > 0 {
+		return c.wire(uint64(a))
+	}
 	if c.Extreme && a == 17 {
 		return math.MaxUint64
 	}
